@@ -89,60 +89,85 @@ def idsOf (cid a : Bytes) : List QID := if cid ≠ [] then [.cid cid, .ip a] els
 
 theorem queryIDs_eq (q : Query) : queryIDs q = idsOf q.cid (canon q.addr) := rfl
 
-/-- `FindLoose` finds exactly what `Find` finds (addresses carry no zones). -/
-theorem storageFindLoose_eq (cs : List PClient) (ls : Leases) (id : QID) :
-    storageFindLoose cs ls id = storageFind cs ls id := by
-  cases id with
-  | cid c => rfl
-  | ip a =>
-    simp only [storageFindLoose, storageFind]
-    cases hi : indexFind cs (.ip a) with
-    | some c => simp [Option.orElse]
-    | none =>
-      simp only [Option.orElse]
-      have hb : byIP cs a = none := by
-        simp only [indexFind, findByIP] at hi
-        cases hb : byIP cs a with
-        | none => rfl
-        | some c => rw [hb] at hi; simp [Option.orElse] at hi
-      cases hm : (macByIP ls a).bind (byMAC cs) with
-      | some c => rfl
-      | none => simp [hb]
+/-- For a ClientID `FindLoose` finds exactly what `Find` finds. -/
+theorem storageFindLoose_cid (cs : List PClient) (ls : Leases) (c : Bytes) :
+    storageFindLoose cs ls (.cid c) = storageFind cs ls (.cid c) := by
+  simp only [storageFindLoose]
+  cases storageFind cs ls (.cid c) <;> simp [Option.orElse]
 
-/-- What both searches find for the ids of `(cid, a)`. -/
+theorem storageFindLoose_ip (cs : List PClient) (ls : Leases) (a : Bytes) :
+    storageFindLoose cs ls (.ip a) =
+      (match storageFind cs ls (.ip a) with | some c => some c | none => byIPZoned cs a) := by
+  simp only [storageFindLoose]
+  cases storageFind cs ls (.ip a) <;> simp [Option.orElse]
+
+/-- What `Find` finds for the ids of `(cid, a)`. -/
 def modelOwner (cs : List PClient) (ls : Leases) (cid a : Bytes) : Option PClient :=
   match (if cid ≠ [] then storageFind cs ls (.cid cid) else none) with
   | some c => some c
   | none => storageFind cs ls (.ip a)
 
-theorem shouldCountClient_eq (cs : List PClient) (ls : Leases) (cid a : Bytes) :
-    shouldCountClient cs ls (idsOf cid a) =
-      (match modelOwner cs ls cid a with | some c => !c.ignStat | none => true) := by
-  unfold idsOf modelOwner
-  by_cases hc : cid ≠ []
-  · rw [if_pos hc, if_pos hc]
-    simp only [shouldCountClient]
-    cases h1 : storageFind cs ls (.cid cid) with
-    | some c => simp
-    | none =>
+/-- What `FindLoose` finds for them: the same, else a holder of the address under
+some zone. -/
+def modelOwnerL (cs : List PClient) (ls : Leases) (cid a : Bytes) : Option PClient :=
+  match modelOwner cs ls cid a with
+  | some c => some c
+  | none => byIPZoned cs a
+
+/-- The owner the statistics' checker uses. -/
+def statOwner (loose : Bool) (cs : List PClient) (ls : Leases) (cid a : Bytes) : Option PClient :=
+  if loose then modelOwnerL cs ls cid a else modelOwner cs ls cid a
+
+theorem shouldCountClient_eq (loose : Bool) (cs : List PClient) (ls : Leases) (cid a : Bytes) :
+    shouldCountClient loose cs ls (idsOf cid a) =
+      (match statOwner loose cs ls cid a with | some c => !c.ignStat | none => true) := by
+  unfold idsOf statOwner modelOwnerL modelOwner
+  cases loose
+  · by_cases hc : cid ≠ []
+    · rw [if_pos hc, if_pos hc]
+      simp only [shouldCountClient, Bool.false_eq_true, if_false]
+      cases h1 : storageFind cs ls (.cid cid) with
+      | some c => simp
+      | none => cases h2 : storageFind cs ls (.ip a) <;> simp
+    · rw [if_neg hc, if_neg hc]
+      simp only [shouldCountClient, Bool.false_eq_true, if_false]
       cases h2 : storageFind cs ls (.ip a) <;> simp
-  · rw [if_neg hc, if_neg hc]
-    simp only [shouldCountClient]
-    cases h2 : storageFind cs ls (.ip a) <;> simp
+  · by_cases hc : cid ≠ []
+    · rw [if_pos hc, if_pos hc]
+      simp only [shouldCountClient, if_true, storageFindLoose_cid, storageFindLoose_ip]
+      cases h1 : storageFind cs ls (.cid cid) with
+      | some c => simp
+      | none =>
+        cases h2 : storageFind cs ls (.ip a) with
+        | some c => simp
+        | none => cases h3 : byIPZoned cs a <;> simp
+    · rw [if_neg hc, if_neg hc]
+      simp only [shouldCountClient, if_true, storageFindLoose_ip]
+      cases h2 : storageFind cs ls (.ip a) with
+      | some c => simp
+      | none => cases h3 : byIPZoned cs a <;> simp
 
 theorem findMultiple_eq (cs : List PClient) (ls : Leases) (cid a : Bytes) :
-    findMultiple cs ls (idsOf cid a) = (modelOwner cs ls cid a).map (·.ignLog) := by
-  unfold idsOf modelOwner
+    findMultiple cs ls (idsOf cid a) = (modelOwnerL cs ls cid a).map (·.ignLog) := by
+  unfold idsOf modelOwnerL modelOwner
   by_cases hc : cid ≠ []
   · rw [if_pos hc, if_pos hc]
-    simp only [findMultiple, storageFindLoose_eq]
+    simp only [findMultiple, storageFindLoose_cid, storageFindLoose_ip]
     cases h1 : storageFind cs ls (.cid cid) with
     | some c => simp
     | none =>
-      cases h2 : storageFind cs ls (.ip a) <;> simp
+      cases h2 : storageFind cs ls (.ip a) with
+      | some c => simp
+      | none => cases h3 : byIPZoned cs a <;> simp
   · rw [if_neg hc, if_neg hc]
-    simp only [findMultiple, storageFindLoose_eq]
-    cases h2 : storageFind cs ls (.ip a) <;> simp
+    simp only [findMultiple, storageFindLoose_ip]
+    cases h2 : storageFind cs ls (.ip a) with
+    | some c => simp
+    | none => cases h3 : byIPZoned cs a <;> simp
+
+/-- With the repair both stores attribute every request to the same client. -/
+theorem log_stat_same_owner (cs : List PClient) (ls : Leases) (cid a : Bytes) :
+    statOwner true cs ls cid a = modelOwnerL cs ls cid a := rfl
 
 /-! ## The searches land in the owner set -/
 
@@ -371,29 +396,78 @@ theorem modelOwner_isSome {cs : List PClient} {ls : Leases} {cid a : Bytes}
       simp only [hl1, List.isEmpty_nil, Bool.not_true, Bool.false_eq_true, if_false]
       exact ipStage_none hm
 
-/-- A query from an ignored client (declaratively) is found ignored by the
-query log's finder. -/
-theorem fromIgnoredLog_findMultiple {c : Conf} {cid a : Bytes} (h : fromIgnoredLog c cid a = true) :
+/-- No zoned identifiers: nothing is identified through a zone. -/
+theorem zonedOwners_nil_of {cs : List PClient} (h : ∀ p ∈ cs, p.zips = []) (a z : Bytes) :
+    zonedOwners cs a z = [] := by
+  have : cs.filter (fun c => c.zips.any (·.1 == a)) = [] := by
+    apply filter_eq_nil_of
+    intro p hp
+    simp [h p hp]
+  simp [zonedOwners, this]
+
+/-- The owner the loose search finds is flagged whenever the declarative owner
+set is non-empty and all flagged. -/
+theorem ownersZ_found {cs : List PClient} {ls : Leases} {cid a z : Bytes} {f : PClient → Bool}
+    (hne : (ownersZ cs ls cid a z).isEmpty = false) (hall : ∀ o ∈ ownersZ cs ls cid a z, f o = true) :
+    ∃ o, modelOwnerL cs ls cid a = some o ∧ f o = true ∧
+      (ownersAt cs ls cid a ≠ [] → modelOwner cs ls cid a = some o) := by
+  unfold ownersZ at hne hall
+  by_cases ho : (ownersAt cs ls cid a).isEmpty = true
+  · -- only a zoned address identifies
+    have hoe : ownersAt cs ls cid a = [] := by simpa using ho
+    simp only [ho, Bool.not_true, Bool.false_eq_true, if_false] at hne hall
+    have hm : modelOwner cs ls cid a = none := by
+      cases hm : modelOwner cs ls cid a with
+      | none => rfl
+      | some c => have := modelOwner_mem hm; rw [hoe] at this; simp at this
+    unfold zonedOwners at hne hall
+    by_cases hz : (z != [] && (cs.filter (fun c => c.zips.any (·.1 == a))).all
+        (fun c => c.zips.contains (a, z))) = true
+    · simp only [hz, if_true] at hne hall
+      cases hf : cs.find? (fun c => c.zips.any (·.1 == a)) with
+      | none =>
+        have := filter_eq_nil_of (find?_none_of hf)
+        rw [this] at hne; simp at hne
+      | some o =>
+        obtain ⟨hmem, hp⟩ := find?_mem_pred hf
+        refine ⟨o, ?_, hall o (mem_filter_of hmem hp), fun h => absurd hoe h⟩
+        simp [modelOwnerL, hm, byIPZoned, hf]
+    · simp only [hz] at hne
+      simp at hne
+  · have ho' : (ownersAt cs ls cid a).isEmpty = false := by simpa using ho
+    simp only [ho', Bool.not_false, if_true] at hne hall
+    have hne' : ownersAt cs ls cid a ≠ [] := by
+      intro he; rw [he] at ho'; simp at ho'
+    obtain ⟨o, hmo⟩ := modelOwner_isSome hne'
+    exact ⟨o, by simp [modelOwnerL, hmo], hall o (modelOwner_mem hmo), fun _ => hmo⟩
+
+/-- A query from an ignored client (declaratively, real address with zone) is
+found ignored by the query log's finder. -/
+theorem fromIgnoredLog_findMultiple {c : Conf} {cid a z : Bytes} (h : fromIgnoredLog c cid a z = true) :
     findMultiple c.clients c.leases (idsOf cid a) = some true := by
   simp only [fromIgnoredLog, Bool.and_eq_true, Bool.not_eq_true', List.all_eq_true] at h
-  obtain ⟨hne, hall⟩ := h
-  have hne' : ownersAt c.clients c.leases cid a ≠ [] := by
-    intro he; rw [he] at hne; simp at hne
-  obtain ⟨o, ho⟩ := modelOwner_isSome hne'
-  have := hall o (modelOwner_mem ho)
+  obtain ⟨o, ho, hf, _⟩ := ownersZ_found h.1 h.2
   rw [findMultiple_eq, ho]
-  simp [this]
+  simp [hf]
+
+/-- The tree carries the repair, or no client is configured with a zoned address. -/
+def ZoneOK (c : Conf) : Prop := c.fixZone = true ∨ ∀ p ∈ c.clients, p.zips = []
 
 /-- … and is not counted by the statistics' checker. -/
-theorem fromIgnoredStat_shouldCount {c : Conf} {cid a : Bytes} (h : fromIgnoredStat c cid a = true) :
-    shouldCountClient c.clients c.leases (idsOf cid a) = false := by
+theorem fromIgnoredStat_shouldCount {c : Conf} {cid a z : Bytes} (hz : ZoneOK c)
+    (h : fromIgnoredStat c cid a z = true) :
+    shouldCountClient c.fixZone c.clients c.leases (idsOf cid a) = false := by
   simp only [fromIgnoredStat, Bool.and_eq_true, Bool.not_eq_true', List.all_eq_true] at h
-  obtain ⟨hne, hall⟩ := h
-  have hne' : ownersAt c.clients c.leases cid a ≠ [] := by
-    intro he; rw [he] at hne; simp at hne
-  obtain ⟨o, ho⟩ := modelOwner_isSome hne'
-  have := hall o (modelOwner_mem ho)
-  rw [shouldCountClient_eq, ho]
-  simp [this]
+  obtain ⟨o, ho, hf, hstrict⟩ := ownersZ_found h.1 h.2
+  rw [shouldCountClient_eq]
+  rcases hz with hfix | hnz
+  · simp [statOwner, hfix, ho, hf]
+  · have hown : ownersAt c.clients c.leases cid a ≠ [] := by
+      intro he
+      have h1 := h.1
+      simp [ownersZ, he, zonedOwners_nil_of hnz] at h1
+    cases hfz : c.fixZone
+    · simp [statOwner, hstrict hown, hf]
+    · simp [statOwner, ho, hf]
 
 end AGH.C08
